@@ -3,6 +3,7 @@
 From Coq Require Import List Bool Arith Lia.
 From HV Require Import Ord Sprout Tree TreeLemmas TreeInv TreeRun TreeIds Hist HistFacts.
 From HV Require Import DriverPrim Driver DriverFacts GenDriver GenEquivDriver DriverCode.
+From HV Require Import Ctor GenCtor GenEquivCtor.
 Import ListNotations.
 
 (* demes are numbered in creation order; deme 0 is the root.  In every reachable state: at least the root exists; every
@@ -74,3 +75,30 @@ Proof. vm_compute. eexists. split; [reflexivity|]. repeat split. Qed.
 Theorem C07_translated_code_well_formed c fuel n evs s : 1 <= height c -> code_moment c fuel n evs s -> WFT c s.
 Proof. exact (code_moment_wf c fuel n evs s). Qed.
 Print Assumptions C07_translated_code_well_formed.
+
+(* ---------------------------------------------------------------- the same for the TRANSLATED constructors.
+   Gen/GenCtor.v is regenerated on every check from AbstractDeme.__init__, the __init__ of EADeme, DEDeme, SHADEDeme, CMADeme, LocalDeme,
+   LHSDeme, SobolDeme (+ the run() the two samplers call), Individual.__init__ / evaluate / evaluate_population / create_population,
+   init_from_config and DemeTree.__init__ (hv/translate/ctor_py.py); `ctor_ok lvl started local o pop`: the constructor built the deme
+   `fresh_deme lvl started n` the machine's sprouting step assumes, its history holding exactly the start population pop. *)
+(* a child is built on the level and at the metaepoch init_from_config names (C06_translated_ctors: fresh_deme lvl started _), nobody's child
+   until add_child; a sprouted population engine starts from a population that contains a NEW individual with the seed's genome, evaluated by
+   the child itself; a local deme starts from the parent's seed individual; the root is built on level 0 at metaepoch 0 without a seed *)
+Theorem C07_translated_ctor_seed_in_start_population lvl started pop_size : 1 <= pop_size ->
+  Forall (fun o => exists p, start_population o = Some p /\ In {| s_org := OSeedGenome; s_fit := true; s_own := true |} p)
+    [gen_EADeme_init pop_size (gen_init_args lvl started true); gen_DEDeme_init pop_size (gen_init_args lvl started true); gen_SHADEDeme_init pop_size (gen_init_args lvl started true)]
+  /\ start_population (gen_LocalDeme_init (gen_init_args lvl started true)) = Some [{| s_org := OSeedObject; s_fit := true; s_own := false |}].
+Proof.
+  intros H. split; [repeat constructor|].
+  - destruct (EADeme_ctor_ok lvl started true pop_size H) as (_ & A & _). eexists. split; [exact A|apply engine_pop_has_seed].
+  - destruct (DEDeme_ctor_ok lvl started true pop_size H) as (_ & A & _). eexists. split; [exact A|apply engine_pop_has_seed].
+  - destruct (SHADEDeme_ctor_ok lvl started true pop_size H) as (_ & A & _). eexists. split; [exact A|apply engine_pop_has_seed].
+  - now destruct (LocalDeme_ctor_ok lvl started true) as (_ & A & _).
+Qed.
+Print Assumptions C07_translated_ctor_seed_in_start_population.
+Theorem C07_translated_tree_init n :
+  init n = {| mcount := gen_tree_init_mcount; demes := [fresh_deme gen_tree_root_level (a_started gen_tree_root_args) n]; pc := PMain; seen := false; steps := 0; clock := n;
+              born_after_seen := 0; last_round := ([], []) |}
+  /\ a_level gen_tree_root_args = gen_tree_root_level /\ a_seed gen_tree_root_args = false.
+Proof. exact (tree_init_is_init n). Qed.
+Print Assumptions C07_translated_tree_init.
